@@ -5,6 +5,7 @@ import (
 	"context"
 	"errors"
 	"fmt"
+	"io"
 	"net/http"
 	"net/http/httptest"
 	"sort"
@@ -22,6 +23,7 @@ import (
 	"github.com/els0r/goProbe/v4/pkg/types"
 	"github.com/els0r/goProbe/v4/plugins/querier/apiclient"
 	"github.com/els0r/goProbe/v4/plugins/resolver/stringresolver"
+	"github.com/gin-gonic/gin"
 	jsoniter "github.com/json-iterator/go"
 
 	"verif/sim"
@@ -32,6 +34,14 @@ type failingResolver struct{}
 
 func (failingResolver) Resolve(context.Context, string) (hosts.Hosts, error) {
 	return nil, errors.New("inventory not reachable")
+}
+
+// panickingResolver is a host-list resolver plug-in with a bug: it panics on the goroutine of the
+// query, which holds a slot by then. The API server recovers the panic (gin.Recovery) and lives on.
+type panickingResolver struct{}
+
+func (panickingResolver) Resolve(context.Context, string) (hosts.Hosts, error) {
+	panic("resolver plug-in: index out of range")
 }
 
 // C31 (distributed variant): bursts of clients on ONE shared distributed query runner with a
@@ -64,6 +74,7 @@ func c31(r *sim.R) *sim.Violation {
 	resolvers := hosts.NewResolverMap()
 	resolvers.Set("string", stringresolver.NewResolver(true))
 	resolvers.Set("failing", failingResolver{})
+	resolvers.Set("panicking", panickingResolver{})
 	runner := gqdist.NewQueryRunner(resolvers, q, gqdist.WithMaxConcurrent(sem))
 	exec := runner.Run
 	// server variant (one run in three): the limit is configured on the real global-query API
@@ -81,6 +92,7 @@ func c31(r *sim.R) *sim.Violation {
 			limiter = "limit configured with a request rate"
 			opts = append(opts, server.WithQueryRateLimit(1e9, 1<<30, K))
 		}
+		gin.DefaultErrorWriter, gin.DefaultWriter = io.Discard, io.Discard // the recovery middleware prints the stack of a recovered panic
 		handler := gqserver.New("", resolvers, q, opts...).API().Adapter()
 		exec = func(ctx context.Context, a *query.Args) (*results.Result, error) {
 			body, err := jsoniter.Marshal(a)
@@ -151,6 +163,9 @@ func c31(r *sim.R) *sim.Violation {
 		cancelAfter := make([]time.Duration, nCalls)
 		for j := range kinds {
 			kinds[j] = []string{"ok", "ok", "resolver-error", "safeguard", "hosts-down", "cancel"}[t.Draw(6)]
+			if viaServer && t.Draw(8) == 0 {
+				kinds[j] = "resolver-panic" // only behind the server, which survives a panicking request
+			}
 			delays[j] = time.Duration(t.Draw(4))*300*time.Millisecond + time.Duration(ci*17+j+1)*time.Microsecond
 			cancelAfter[j] = time.Duration(1+t.Draw(5))*200*time.Millisecond + time.Duration(ci*19+j+3)*time.Microsecond
 		}
@@ -174,6 +189,9 @@ func c31(r *sim.R) *sim.Violation {
 				switch kind {
 				case "resolver-error":
 					a.QueryHostsResolverType = "failing"
+				case "resolver-panic":
+					a.QueryHostsResolverType = "panicking"
+					r.Fault("plugin-panic-while-holding-a-slot")
 				case "safeguard":
 					a.Query = "raw" // unbounded raw query without condition: rejected after the slot was taken
 				case "hosts-down":
@@ -294,6 +312,9 @@ func c31(r *sim.R) *sim.Violation {
 				what := "after cancelled or successful queries"
 				if kinds["resolver-error"]+kinds["safeguard"] > 0 {
 					what = "after queries that failed once the slot was taken"
+				}
+				if kinds["resolver-panic"] > 0 {
+					what = "after a query that panicked (recovered by the server) once the slot was taken"
 				}
 				return r.Report(&sim.Violation{Clause: "slot-leaked", Signature: what, Detail: fmt.Sprintf("fresh request %d to the server after all %d calls returned (kinds: %v) is answered 'too many requests'", i, len(calls), kinds)})
 			}
